@@ -688,18 +688,30 @@ class Analyzer(ExprMixin):
         formals = {p.name: p for p in child.ports}
         done = set()
         for k, a in enumerate(st.pmap):
+            formal_conv = None
             if a.formal is None:
                 if k >= len(child.ports):
                     self.error("S-struct", f"instance {st.label_raw}: too many positional associations", st.line, what="too-many")
                     continue
                 f = child.ports[k]
             else:
-                if a.formal.kind != "name":
+                fnode = a.formal
+                if (fnode.kind == "apply" and fnode.prefix.kind == "name" and len(fnode.args) == 1
+                        and fnode.args[0].kind == "name"):
+                    # type conversion on the formal: type_mark(formal) => actual  (LRM 93 4.3.2.2)
+                    tm = self.lookup(scope, fnode.prefix.id)
+                    cty = tm.ty if (tm is not None and tm.kind == "type") else (
+                        PREDEFINED_TYPES.get(fnode.prefix.id) if tm is None else None)
+                    if cty is None:
+                        raise Unsupported("function/indexed formal in port map")
+                    formal_conv = cty
+                    fnode = fnode.args[0]
+                if fnode.kind != "name":
                     raise Unsupported("partial/indexed formal in port map")
-                f = formals.get(a.formal.id)
+                f = formals.get(fnode.id)
                 if f is None:
-                    self.error("S-struct", f"instance {st.label_raw}: entity {st.entity_raw} has no port {a.formal.raw}", st.line,
-                               what="unknown-formal", name=self.name_class(a.formal.raw))
+                    self.error("S-struct", f"instance {st.label_raw}: entity {st.entity_raw} has no port {fnode.raw}", st.line,
+                               what="unknown-formal", name=self.name_class(fnode.raw))
                     continue
             if f.name in done:
                 self.error("S-struct", f"instance {st.label_raw}: port {f.raw} associated twice", st.line, what="formal-twice")
@@ -711,6 +723,17 @@ class Analyzer(ExprMixin):
                 continue
             if f.ty is ERR:
                 continue
+            fty = f.ty
+            if formal_conv is not None:
+                if f.mode != "out":
+                    raise Unsupported("type conversion on an input formal")
+                ok = (formal_conv.kind == "array" and fty.kind == "array" and formal_conv.elem is not None
+                      and fty.elem is not None and formal_conv.elem.base == fty.elem.base and fty.elem.kind != "array")
+                if not ok:
+                    self.error("S-type", f"instance {st.label_raw}: no conversion from {fty} to {formal_conv} on formal {f.raw}",
+                               st.line, where="port-association", found=cat(fty), want=cat(formal_conv))
+                    continue
+                fty = formal_conv.constrained(fty.rng) if formal_conv.rng is None else formal_conv
             if f.mode == "in":
                 p = ProcInfo(f"{st.label_raw}.{f.raw}", "inst-in", st.line)
                 saved = (self.cur_owner, self.cur_proc, self.guard_depth)
@@ -732,10 +755,10 @@ class Analyzer(ExprMixin):
                 if tgt is None:
                     continue
                 obj, tty, assign, whole = tgt
-                if not tty.same_base(f.ty) or (tty.length is not None and f.ty.length is not None and tty.length != f.ty.length):
-                    rule = "S-type" if not tty.same_base(f.ty) else "S-width"
-                    self.error(rule, f"instance {st.label_raw}: port {f.raw} of type {f.ty} associated with an actual of type {tty}",
-                               st.line, where="port-association", found=cat(tty), want=cat(f.ty))
+                if not tty.same_base(fty) or (tty.length is not None and fty.length is not None and tty.length != fty.length):
+                    rule = "S-type" if not tty.same_base(fty) else "S-width"
+                    self.error(rule, f"instance {st.label_raw}: port {f.raw} of type {fty} associated with an actual of type {tty}",
+                               st.line, where="port-association", found=cat(tty), want=cat(fty))
                     continue
                 inst.assocs.append((f, "out", (obj, assign), whole, p))
                 p.block = None
